@@ -1,5 +1,6 @@
 """C06 subprocess worker: builds the given families on plain (set-backed) Contexts, registering the
-overloads in an order shuffled by the worker's seed after some allocation noise, and prints the
+overloads in an order shuffled by the worker's seed after some allocation noise - for some cases on the
+MultiContext / LinkedContext shapes of the case -, and prints the
 outcome of every call.  stdin: {"seed": n, "cases": [{"layers":…, "calls":[…]}]}; stdout: JSON."""
 import json
 import os
@@ -20,6 +21,11 @@ def main():
         for layer in layers:
             rng.shuffle(layer['fns'])
             noise.append([object() for _ in range(rng.randrange(0, 50))])
+        shapes = case.get('shapes') or []
+        if shapes and rng.random() < 0.6:
+            # the same family held by MultiContexts / LinkedContexts (the split over the members follows the
+            # shuffled list: another split, the same union)
+            layers = [dict(l, shape=sh) if sh else l for l, sh in zip(layers, rng.choice(shapes))]
         fam = rl.Family(layers)
         res = []
         for cspec in case['calls']:
